@@ -9,3 +9,6 @@ import CGV.Props.C03
 #print axioms CGV.C03.C03_pair_carried
 #print axioms CGV.C03.C03_exact
 #print axioms CGV.C03.C03_bond_order
+#print axioms CGV.restore_aux
+#print axioms CGV.edgesFrom_inv
+#print axioms CGV.gen_compatible_eq
